@@ -54,6 +54,10 @@ func (c *FnCtx) step(frame *Frame, st *State, in ssa.Instruction) (forkFn, bool)
 	case *ssa.MakeSlice:
 		ln := c.val(st, x.Len).S
 		cp := c.val(st, x.Cap).S
+		if !frame.inlined && frame.contract != nil && len(frame.contract.Asserts) > 0 {
+			// call-site rules may bound an allocation: assert ... at builtin.make#k :: expr
+			c.checkCallSiteAsserts(frame, st, x, "builtin.make")
+		}
 		c.safety(st, x, "makeslice", fmt.Sprintf("(and (<= 0 %s) (<= %s %s) (<= %s 1099511627776))", ln, ln, cp, cp), "make([]T, len, cap): 0 <= len <= cap <= 2^40")
 		r := c.allocRef(st, "slice")
 		et := x.Type().Underlying().(*types.Slice).Elem()
